@@ -9,6 +9,7 @@ import Driver.C12
 import Driver.C04
 import Driver.C11
 import Driver.C14
+import Driver.C17
 /-!
 Line-protocol driver.  Reads one JSON object per line on stdin, each with a field `p`
 naming the property slice and an `id`; writes one JSON object per line with the same `id`
@@ -28,6 +29,7 @@ def dispatch (j : Json) : Json :=
   | "C04" => Driver.C04.handle j
   | "C11" => Driver.C11.handle j
   | "C14" => Driver.C14.handle j
+  | "C17" => Driver.C17.handle j
   | "C08" => Driver.C09.handle j
   | "C01" => Driver.C03.handle j
   | "C02" => Driver.C03.handle j
